@@ -37,10 +37,13 @@ pub fn run_tool(tool: &str, args: &[String], stdin: &[u8]) -> RunOut {
         .stderr(Stdio::piped())
         .spawn()
         .expect("spawn tool");
-    {
-        let mut si = child.stdin.take().unwrap();
-        let _ = si.write_all(stdin);
-    }
+    // stdin is fed from its own thread: with large inputs the tool's output fills its pipe before the input is consumed
+    let mut si = child.stdin.take().unwrap();
+    let data = stdin.to_vec();
+    let feeder = std::thread::spawn(move || {
+        let _ = si.write_all(&data);
+    });
     let o = child.wait_with_output().expect("wait");
+    let _ = feeder.join();
     RunOut { code: o.status.code(), stdout: o.stdout, stderr: String::from_utf8_lossy(&o.stderr).to_string() }
 }
